@@ -108,6 +108,12 @@ impl SystemCommandStorage
     {
         self.callback.take()
     }
+
+    #[cfg(feature = "verif")]
+    pub(crate) fn verif_has_callback(&self) -> bool
+    {
+        self.callback.is_some()
+    }
 }
 
 //-------------------------------------------------------------------------------------------------------------------
